@@ -56,6 +56,7 @@ type batchResult struct {
 	Hashes     []string          `json:"hashes"`
 	Samples    []json.RawMessage `json:"samples"`
 	Violations []found           `json:"violations"`
+	SigRuns    map[string]int64  `json:"sig_runs"`
 	Troubles   []string          `json:"troubles"`
 	NextIndex  int               `json:"next_index"`
 	WallS      float64           `json:"wall_s"`
@@ -195,6 +196,7 @@ type layerTotals struct {
 	Hashes     map[string]bool
 	Samples    []json.RawMessage
 	Found      []found
+	SigRuns    map[string]int64 // runs per violation signature as counted by the workers (Found is a sample)
 	Troubles   []string
 	Wall       float64
 	Crashes    int
@@ -246,6 +248,12 @@ func runLayer(layer string, total int, capSecs int) *layerTotals {
 			lt.Samples = append(lt.Samples, r.Samples...)
 		}
 		lt.Found = append(lt.Found, r.Violations...)
+		for sg, n := range r.SigRuns {
+			if lt.SigRuns == nil {
+				lt.SigRuns = map[string]int64{}
+			}
+			lt.SigRuns[sg] += n
+		}
 		lt.Troubles = append(lt.Troubles, r.Troubles...)
 		return &r
 	}
@@ -614,6 +622,19 @@ func main() {
 				}
 				g.count++
 			}
+		}
+	}
+	// the workers keep a few runs per signature and count the rest
+	for s, g := range groups {
+		var n int64
+		for _, ln := range []string{"sim", "race"} {
+			if lt := layers[ln]; lt != nil {
+				n += lt.SigRuns[s]
+			}
+		}
+		if int(n) > g.count {
+			totalViol += int(n) - g.count
+			g.count = int(n)
 		}
 	}
 	exit := 0
